@@ -11,6 +11,7 @@ import (
 	"flag"
 	"fmt"
 	"io"
+	"net"
 	"os"
 	"strings"
 	"testing/iotest"
@@ -279,7 +280,7 @@ func main() {
 				check(fmt.Sprintf("random%v", sizes), &chunked{data: append([]byte(nil), data...), sizes: sizes, withEOF: j%2 == 0, empties: j % 3})
 			}
 		case "fail":
-			kinds := []error{errors.New("boom"), io.ErrUnexpectedEOF, timeoutErr{}}
+			kinds := []error{errors.New("boom"), io.ErrUnexpectedEOF, timeoutErr{}, fmt.Errorf("connection reset by peer: %w", io.EOF), &net.OpError{Op: "read", Net: "tcp", Err: errors.New("use of closed network connection")}, os.ErrDeadlineExceeded, context.Canceled}
 			for _, k := range points {
 				for ki, e := range kinds {
 					for _, wd := range []bool{false, true} {
